@@ -4,27 +4,15 @@ import (
 	"fmt"
 
 	"github.com/ajitpratap0/GoSQLX/pkg/gosqlx"
-	"github.com/ajitpratap0/GoSQLX/pkg/sql/security"
 )
 
 func main() {
-	for _, s := range []string{
-		"SELECT a FROM t WHERE 1 = 1",
-		"MERGE INTO t USING s ON 1 = 1 WHEN MATCHED THEN DELETE",
-		"MERGE INTO t USING s ON t.a = s.a WHEN MATCHED AND 'a' = 'a' THEN DELETE",
-		"MERGE INTO t USING s ON t.a = s.a WHEN MATCHED THEN UPDATE SET x = SLEEP(5)",
-		"MERGE INTO t USING (SELECT a FROM u WHERE 1 = 1) s ON t.a = s.a WHEN MATCHED THEN DELETE",
-		"CREATE VIEW v AS SELECT a FROM t WHERE 1 = 1",
-		"CREATE MATERIALIZED VIEW v AS SELECT a FROM t WHERE 1 = 1",
-		"CREATE INDEX ix ON t (a) WHERE 1 = 1",
-		"CREATE TABLE t (a INT CHECK (1 = 1))",
-	} {
+	for _, s := range []string{"SELECT (NOT a) = b OR c", "SELECT 1 FROM t WHERE (a IN (1, 2)) = TRUE AND c = 1", "SELECT (NOT a) = b", "SELECT ((NOT a) = b) + 1 > 2 OR c"} {
 		t, err := gosqlx.Parse(s)
 		if err != nil {
-			fmt.Println("ERR", s)
+			fmt.Println("ERR", err)
 			continue
 		}
-		r := security.NewScanner().Scan(t)
-		fmt.Printf("%-95s findings=%d\n", s, len(r.Findings))
+		fmt.Println(s, " => ", t.SQL())
 	}
 }
